@@ -491,8 +491,15 @@ fn threads<W: Write>(out: &mut W, hi: usize, hist: &Value, out_path: &str) {
         for _ in 0..nops {
             let which = rng.below(2) as usize;
             let (name, s) = if which == 0 { ("/a/s1", &mut h1) } else { ("/a/s2", &mut h2) };
-            let kind = rng.below(10);
-            let (to, desc): (u64, String) = if kind < 5 {
+            let mut kind = rng.below(11);
+            if kind == 10 && lens[which] >= 400_000 {
+                kind = 9;
+            }
+            let (mut to, desc): (u64, String) = if kind == 10 {
+                // ONE Write::write call far larger than the stream buffer: it takes what the buffer can take (a short
+                // count) - one handle operation, the length changes once (the count is only known afterwards)
+                (lens[which], "bigwrite".to_string())
+            } else if kind < 5 {
                 // now and then an append far larger than any internal transfer unit: it is ONE handle
                 // operation (buffered, written back by the flush) and must change the length once
                 let k = if rng.below(8) == 0 && lens[which] < 400_000 { 330_000u64 } else { [10u64, 64, 600][rng.below(3) as usize] };
@@ -509,7 +516,11 @@ fn threads<W: Write>(out: &mut W, hi: usize, hist: &Value, out_path: &str) {
             };
             let a = stamp();
             let r = catch_unwind(AssertUnwindSafe(|| -> std::io::Result<()> {
-                if kind < 5 {
+                if kind == 10 {
+                    s.seek(SeekFrom::End(0))?;
+                    let _ = s.write(&vec![0x77u8; 3_000_000])?;
+                    s.flush()?;
+                } else if kind < 5 {
                     s.seek(SeekFrom::End(0))?;
                     s.write_all(&vec![0x55u8; (to - lens[which]) as usize])?;
                     s.flush()?;
@@ -532,6 +543,9 @@ fn threads<W: Write>(out: &mut W, hi: usize, hist: &Value, out_path: &str) {
                 Ok(())
             }));
             let b = stamp();
+            if kind == 10 {
+                to = s.len();
+            }
             let res = match &r {
                 Ok(Ok(())) => "ok",
                 Ok(Err(_)) => "err",
